@@ -231,6 +231,34 @@ def run_template(rep, crate, cfg):
                     "KL(n) returns that K' (or 0 when none fits)", rts[0] if rts else None)
         # --- N search ----------------------------------------------------------------------
         exits = [e for e in loop_exit_conds(fn, tb)]
+        if len(exits) == 0:
+            # form B: N = (1..=N_max).find(|&n| ceil(Kt/Z) <= KL(n)).unwrap_or(N_max [.max(1)])
+            from .. import seqs
+            nn = strip(f_N)
+            mB = match(("call", "std::option::Option::<T>::unwrap_or",
+                        (("call", "std::iter::Iterator::find", (V("it"), V("clo"))), V("dflt"))), nn)
+            okB = False
+            det = nn
+            if mB is not None:
+                it = mB["it"]
+                while it[0] == "ref" or (it[0] == "call" and isinstance(it[1], str) and it[1].endswith("into_iter")):
+                    it = it[1] if it[0] == "ref" else it[2][0]
+                ok_iter = it[0] == "call" and isinstance(it[1], str) and it[1].endswith("RangeInclusive::<Idx>::new") and \
+                    strip(it[2][0]) == ("const", 1) and strip(it[2][1]) == NMAX
+                chk(ok_iter, "N-range", "N is searched ascending over 1..=N_max (inclusive)", it)
+                n = ("sym", "n")
+                body = seqs.apply_closure(crate, mB["clo"], n, arg_by_ref=True)
+                c = strip(canon(body, crate)) if body is not None else None
+                Z = strip(f_Z)
+                m = match(("op", "Le", ("ceildiv", KT, Z), ("call", clpath, (V("env"), ("agg", "tuple", (V("n"),))))), c) if c else None
+                chk(m is not None and strip(m["n"]) == n, "N-condition", "the search stops at the first n with ceil(Kt/Z) <= KL(n)", c)
+                d = strip(mB["dflt"])
+                # N_max >= 1 under the entry assert (P >= Al), so N_max and max(N_max, 1) are the same default
+                okd = d == NMAX or d in (("call", "std::cmp::Ord::max", (NMAX, ("const", 1))), ("call", "std::cmp::Ord::max", (("const", 1), NMAX)))
+                chk(okd, "N-result", "N is the n at which the search stopped, N_max when it never does", d)
+                okB = True
+            chk(okB, "N-one-search", "one search (loop with one early exit, or find over 1..=N_max) computes N", det)
+            continue
         chk(len(exits) == 1, "N-one-search", "one search loop with one early exit computes N", None)
         if len(exits) == 1:
             b, c, truth, head = exits[0]
